@@ -21,6 +21,13 @@ Theorem C34_no_loss : forall packs ids newp h,
   ld (run_a (init packs) (trace_a packs ids newp)) h = true.
 Proof. exact no_loss. Qed.
 
+(* the model's end state satisfies the oracle's salvage clause *)
+Theorem C34_model_salvage_resolvable : forall packs ids newp h,
+  wf_packs packs = true -> ~ In newp ids -> In h (must_salvage packs ids) ->
+  In (newp, h, true) (final_view packs ids newp) /\
+  In newp (b_packs (run_a (init packs) (trace_a packs ids newp))).
+Proof. exact model_salvage_resolvable. Qed.
+
 (* repair snapshots: the repairing tree rewrite equals the plain walk with invalid nodes dropped and
    every file reduced to its indexed blobs; unloadable subtrees become empty directories. *)
 Theorem C34_rewrite_characterised : forall store sizes fuel path tid,
@@ -58,6 +65,7 @@ Proof. exact check_C34_sound. Qed.
 Print Assumptions C34_salvage_complete.
 Print Assumptions C34_remove_after_upload.
 Print Assumptions C34_no_loss.
+Print Assumptions C34_model_salvage_resolvable.
 Print Assumptions C34_rewrite_characterised.
 Print Assumptions C34_repaired_consistent.
 Print Assumptions C34_intact_files_unchanged.
